@@ -7,3 +7,5 @@ package flags
 // --status implies dry mode: the executor option list is built with WithDry(Dry || Status).
 //@ func (*flagsOption).ApplyToExecutor
 //@   site WithDry#0 requires arg0 == (Dry || Status)                                             [C12]
+// "yes" is assumed for prompts - the task's own and the trust prompt of a remote Taskfile - only when --yes was given
+//@   site WithAssumeYes#0 requires arg0 == AssumeYes                                             [C20,C13]
